@@ -238,7 +238,7 @@ class Prop:
             "clone index order differs from pre-order; per tree: Node.find_all/find_first from every node x 11 regular expressions (str, "
             "(str,flags), [str,flags]) + 9 callbacks + identity matches x add_self x max_results in {None,0,1..5}; the same by data and "
             "data_id (present, absent, falsy); Tree.find_all/find_first by match, data, data_id, node_id x max_results; argument conflicts; "
-            "tree[key], key in tree, del tree[key] for every key kind (data object, int/str data_id, node_id, float/bool/tuple, absent, "
+            "Node.is_clone / get_clones of every node; tree[key], key in tree, del tree[key] for every key kind (data object, int/str data_id, node_id, float/bool/tuple, absent, "
             "ambiguous, None, a Node).  A case is one tree with all its queries; distinct = distinct (universe, nodes, ops, calc); "
             "non-trivial = >= 3 nodes and a clone group of size >= 2")
     exhaustive_note = "all shapes <= N nodes (N=4 quick) x 6 labelings x 4 shuffles, every start node, every matcher, k in {None,1,2,3}"
@@ -415,6 +415,7 @@ class Prop:
             for d in did_args:
                 queries.append(("NFA", p, None, None, d, ks))
                 queries.append(("nff", p, None, None, d))
+            queries.append(("clones", p))
             # argument conflicts and the bare call
             queries.append(("NFA", p, None, None, None, [None]))
             queries.append(("NFA", p, data_objs[0], None, 7, [None]))
@@ -447,8 +448,8 @@ class Prop:
             queries.append(("in", kq))
         if not full:
             qr = random.Random(desc.get("qseed", 0))
-            keep = [q for q in queries if q[0] in ("get", "in")]
-            rest = [q for q in queries if q[0] not in ("get", "in")]
+            keep = [q for q in queries if q[0] in ("get", "in", "clones")]
+            rest = [q for q in queries if q[0] not in ("get", "in", "clones")]
             qr.shuffle(rest)
             queries = rest[: desc.get("nq", 60)] + keep
         dels = [kq for kq in keys if kq[0] in ("obj", "nodeid", "lit")]
@@ -596,6 +597,16 @@ class Prop:
                 cq = f"QTreeFindFirst {c_oz(did_ix(st, dcalc(data)))} {c_oz(mi)} {c_oz(did_ix(st, did))} {c_oz(node_id)}"
             return o, "(" + cq + ")"
 
+        if kind == "clones":
+            n = nodes[q[1]]
+            r1 = call(lambda: n.is_clone())
+            r2 = call(lambda: n.get_clones())
+            r3 = call(lambda: n.get_clones(add_self=True))
+            if r3[0] == 0 and any(r3[1] is g for g in tree._nodes_by_data_id.values()):
+                st.setdefault("aliased", []).append(q)
+            return ([[0, bool(r1[1])] if r1[0] == 0 else r1, [0, ids(r2[1])] if r2[0] == 0 else r2,
+                     [0, ids(r3[1])] if r3[0] == 0 else r3], f"(QClones {lid(n)})")
+
         kq = q[1]
         kobj = self.resolve_key(st, kq)
         kterm = key_coq(kobj, None if kobj is None else calc_of(desc, kobj))
@@ -640,7 +651,7 @@ class Prop:
         def fail(msg, exp):
             # the text before the first ':' is the category the runner groups failing inputs by
             cat = {"nfa": "Node.find_all", "nff": "Node.find_first", "tfa": "Tree.find_all", "tff": "Tree.find_first",
-                   "get": "tree[key]", "in": "key in tree", "del": "del tree[key]"}[kind]
+                   "get": "tree[key]", "in": "key in tree", "del": "del tree[key]", "clones": "Node.is_clone/get_clones"}[kind]
             if kind in ("nfa", "nff", "tfa", "tff"):
                 by = "match" if q[3 if kind[0] == "n" else 2] is not None else "data/data_id"
                 d = q[2 if kind[0] == "n" else 1]
@@ -704,6 +715,19 @@ class Prop:
             exp = allm[:k] if k else allm
             exp = [0, ids(exp)]
             return None if o == exp else fail("ordered search", exp)
+
+        if kind == "clones":
+            n = nodes[q[1]]
+            car = ids(carrying(n._data_id))
+            others = [i for i in car if i != lid(n)]
+            if o[0] != [0, len(car) > 1]:
+                return fail("is_clone", [0, len(car) > 1])
+            for got, want, what in ((o[1], others, "get_clones()"), (o[2], car, "get_clones(add_self=True)")):
+                if got[0] != 0 or sorted(got[1]) != sorted(want):
+                    return fail(what, f"the nodes {want} in any order")
+            if q in st.get("aliased", []):
+                return fail("get_clones(add_self=True) is the live index list", "a new list")
+            return None
 
         kq = q[1]
         kobj = self.resolve_key(st, kq)
